@@ -6,7 +6,7 @@ LEVEL_TEXT = ('bounded symbolic verification of the omission decision in the rea
               '(core.c) over a symbolic level-1 store')
 TRUSTED = ['cbmc 6.11', 'recording stubs at jls_core_fsr_summary1 / jls_core_wr_data', 'relational argument: everything downstream of jls_core_fsr_summary1 (all summaries, length) receives the '
            'same block data whether or not the data chunk is written, because omission only replaces the position argument by 0']
-OUTSIDE = ['f32/f64 synthesis values of blocks omitted on request (pseudo-random by design)', 'blocks larger than the small hooked sizes', 'toggling omission in the middle of a session more than once']
+OUTSIDE = ['blocks omitted on request for wider types (synthesised samples are pseudo-random by design; only their count/type would be checkable)', 'blocks larger than the small hooked sizes', 'toggling omission in the middle of a session more than once']
 EXPLANATION = ('O1: the packer harness of C01 with symbolic sample bytes (so constant and non-constant blocks arise symbolically) and a symbolic omission request; at the '
                'jls_core_fsr_summary1 seam every block is observed with its data: the block stream, its timestamps and the length are asserted identical to the written '
                'stream in all cases, the first block is always stored, a full <=8-bit block is omitted iff constant, a wider block iff omission is in effect. '
@@ -20,4 +20,6 @@ def obligations(tier):
         ob = packer('O1_omit_decision_w%d' % bits, bits, 2, 0, 0, to, extra=['OMIT_REQUEST=1', 'OMIT_CHECK=1'], nmax=BLOCKS[bits] + 3,
                     desc='omission decision and invariance of the block stream, %d-bit samples, symbolic omission request' % bits)
         o.append(ob)
+    # O2 reader reconstruction: harness/c15_reader.c exists; u8 ran out of memory (11 GB), u4 returned a counterexample that does not reproduce natively
+    # (CBMC reads the level-1 summary through float data[][4] differently from the harness stub) -> not claimed.
     return o
